@@ -325,12 +325,6 @@ sx_parse_token(const char *s, const size_t n, const size_t i)
 }
 
 static inline bool
-result_is_empty_listp(const struct sx_parse_result *res)
-{
-    return (res->status == SXS_SUCCESS && res->node->type == SXT_EMPTY_LIST);
-}
-
-static inline bool
 result_is_error(const struct sx_parse_result *res)
 {
     return (res->status != SXS_SUCCESS && res->status != SXS_FOUND_LIST);
@@ -342,13 +336,22 @@ static struct sx_parse_result sx_parse_list(const char*, size_t, size_t);
 static struct sx_parse_result
 sx_parse_list(const char *s, const size_t n, const size_t i)
 {
-    if (i >= n) {
+    const size_t j = skip_ws(s, n, i);
+    if (j >= n) {
         struct sx_parse_result rv = SX_PARSE_RESULT_INIT;
         rv.status = SXS_UNEXPECTED_END;
         return rv;
     }
-    struct sx_parse_result carres = sx_parse_(s, n, i);
-    if (result_is_empty_listp(&carres) || result_is_error(&carres)) {
+    if (s[j] == ')') {
+        /* This closes the list we are reading. It has to be told apart from
+         * an element that happens to be an empty list. */
+        struct sx_parse_result rv = SX_PARSE_RESULT_INIT;
+        rv.node = sx_make_empty_list();
+        rv.position = j + 1u;
+        return rv;
+    }
+    struct sx_parse_result carres = sx_parse_(s, n, j);
+    if (result_is_error(&carres)) {
         return carres;
     }
 
@@ -365,6 +368,14 @@ sx_parse_list(const char *s, const size_t n, const size_t i)
 static struct sx_parse_result
 sx_parse_(const char *s, const size_t n, const size_t i)
 {
+    const size_t j = skip_ws(s, n, i);
+    if (j < n && s[j] == ')') {
+        /* A closing parenthesis where an expression has to start. */
+        struct sx_parse_result err = SX_PARSE_RESULT_INIT;
+        err.status = SXS_UNKNOWN_INPUT;
+        err.position = j;
+        return err;
+    }
     struct sx_parse_result rv = sx_parse_token(s, n, i);
     if (rv.status == SXS_FOUND_LIST) {
         return sx_parse_list(s, n, rv.position);
